@@ -4165,7 +4165,10 @@ pub fn lift_fn(ctx: &mut Ctx, blk: &Block) -> Result<(String, Value), String> {
             impl<'ast> syn::visit::Visit<'ast> for FindAssign<'ast> {
                 fn visit_expr_binary(&mut self, b: &'ast syn::ExprBinary) {
                     if self.found.is_none() && matches!(b.op, syn::BinOp::AddAssign(_) | syn::BinOp::SubAssign(_)) {
-                        if let syn::Expr::Path(p) = &*b.left {
+                        // `*var += e` (a `&mut` obtained from a map entry) counts as an assignment to `var`
+                        let mut left = &*b.left;
+                        if let syn::Expr::Unary(u) = left { if matches!(u.op, syn::UnOp::Deref(_)) { left = &*u.expr; } }
+                        if let syn::Expr::Path(p) = left {
                             if p.path.is_ident(&self.name) {
                                 if self.skip == 0 {
                                     self.found = Some(&b.right);
